@@ -3,7 +3,7 @@
    malformed is an explicit constructor; [handle true] is the current api.rs, [handle false]
    the pinned one.  Rendering/parsing of bytes (hyper, serde, base64, url) is outside the
    model; it is exercised by engine H, which must classify each malformation the same way. *)
-From XS Require Import Model.Http Proofs.HttpP.
+From XS Require Import Model.Route Proofs.RouteP Model.Http Proofs.HttpP.
 
 (* every request, however malformed, receives a response - never a dropped connection *)
 Theorem C13_total : forall st i r, exists status b st', handle true st i r = (HResp status b, st').
@@ -62,3 +62,22 @@ Check pinned_not_total.
 Check pinned_differs_only_there.
 (* non-vacuity *)
 Check demo_run.
+
+(* route parsing on the raw path (match_route): the head route asks for exactly the topic after
+   "/head/" - for every byte string, also one that itself begins with "/head/" -, the append route
+   for the path without its leading slash, and nothing but GET / POST / DELETE reaches the store *)
+Theorem C13_route_head : forall t, route_path MGet (p_head ++ t) = PHead t.
+Proof. exact route_head_exact. Qed.
+Theorem C13_route_cas : forall h, route_path MGet (p_cas_ ++ h) = PCasGet h.
+Proof. exact route_cas_exact. Qed.
+Theorem C13_route_append : forall t,
+  starts_slash t = false -> bytes_eqb (47 :: t) p_cas = false -> bytes_eqb (47 :: t) p_import = false ->
+  route_path MPost (47 :: t) = PAppend t.
+Proof. exact route_append_exact. Qed.
+Theorem C13_route_other_methods : forall p, route_path MOther p = PNotFound.
+Proof. exact route_other_methods. Qed.
+Print Assumptions C13_route_head.
+Print Assumptions C13_route_cas.
+Print Assumptions C13_route_append.
+Print Assumptions C13_route_other_methods.
+Check route_head_repeated_strip_refuted.
